@@ -281,7 +281,7 @@ def opf_costs(draw, recipe, cfg, ac, rnd):
                 slopes.append(_r(slopes[-1] + abs(base) * draw(q(0.1, 1.0, nd=1)) + 0.1))
             costs.append({"kind": "pwl", "et": t, "k": k, "power_type": "p",
                           "points": [[xs[j], xs[j + 1], slopes[j]] for j in range(nseg)]})
-            if qcost and t != "dcline" and not is_slack and draw(st.integers(0, 2)) == 0:
+            if qcost and t != "dcline" and not is_slack and draw(st.booleans()):
                 ql, qh = e.get("min_q_mvar", -S), e.get("max_q_mvar", S)
                 if abs(ql) > 1e5 or abs(qh) > 1e5:
                     ql, qh = -S, S
